@@ -98,6 +98,52 @@ def ob_effective_1d(timeout=30):
                   detail='bit i (< k) = <LZ_i, e> (X-type action on logical qubit i), bit k+i = <LX_i, e> (Z-type action)')
 
 
+def ob_effective_2d(timeout=60, case='multi'):
+    """stacked residual errors (T x 2n): row t of the result is the effect of error t, same bit order as the 1-D contract.
+    cases: multi (k >= 2, T >= 2: comprehension branch), single (k = 1, T >= 2: transpose branch), one (T = 1 given as a 1 x 2n matrix)"""
+    mb = Module.load(BP); f = mb.funcs['get_effective_error']
+    m, c, calls, SYN, bs_prod0, H, LX, LZ, e, selfo = _setup()
+    Tn = z3.Int('T')
+    kk = 1 if case == 'single' else K
+    tt = 1 if case == 'one' else Tn
+    if case == 'single':
+        LX = Arr((1, 2 * N), LX.f, 'uint8', 'cache:logicals_x'); LZ = Arr((1, 2 * N), LZ.f, 'uint8', 'cache:logicals_z')
+    E2 = Arr((tt, 2 * N), lambda t, i: z3.Function('E2', INT, INT, INT)(Z(t), Z(i)), 'uint8', 'param:error')
+
+    def bs_prod(x_, st, a, k):          # C03 contract for (2-D, 2-D): shape (rows(a), rows(b)), entry [i, t] = <a_i, b_t>
+        idx = len(calls); calls.append(a)
+        F = z3.Function('prod2_%d' % idx, INT, INT, INT); SYN[idx] = F
+        return Arr((a[0].shape[0], a[1].shape[0]), lambda i, t: F(Z(i), Z(t)), 'int', 'fresh')
+    x = X(mb, {'bs_prod': bs_prod}); x.prune_with_solver = True
+    pre = z3.And(N >= 1, K >= (1 if case == 'one' else 2), Tn >= 2)
+    st, ret = x.run(f, [E2, LX, LZ], {}, None, St(pre))
+    if isinstance(ret, Alt):
+        ret = x._collapse(ret)
+    problems, which = [], {}
+    if len(calls) != 2:
+        problems.append('expected two bs_prod calls')
+    for idx, a in enumerate(calls):
+        if a[1] is not E2:
+            problems.append('bs_prod is not evaluated against the stack of total errors')
+        which[idx] = 'LX' if a[0] is LX else 'LZ' if a[0] is LZ else '?'
+    if sorted(which.values()) != ['LX', 'LZ']:
+        problems.append('products are taken with %s, expected logicals_x and logicals_z' % which)
+    if problems or not isinstance(ret, Arr):
+        return dict(verdict='refuted', model=dict(problems=problems), backend='pyvc-symex', seconds=0, detail='; '.join(problems) or 'no array returned', kind='plain',
+                    functions=[dict(function=f.ref, sha256_16=f.sha)], transparent=sorted(x.transparent))
+    pz = [SYN[i_] for i_, w in which.items() if w == 'LZ'][0]
+    px = [SYN[i_] for i_, w in which.items() if w == 'LX'][0]
+    i, t = z3.Ints('i t')
+    raised = z3.Or([c_ for c_, _, _ in st.raises] + [z3.BoolVal(False)])
+    if case == 'one':
+        bad = z3.Or(z3.BoolVal(ret.rank != 1), raised) if ret.rank != 1 else z3.Or(Z(ret.f(i)) != pz(i, 0), Z(ret.f(K + i)) != px(i, 0), Z(ret.shape[0]) != 2 * K, raised)
+    else:
+        bad = z3.Or(z3.BoolVal(ret.rank != 2), raised) if ret.rank != 2 else z3.Or(Z(ret.f(t, i)) != pz(i, t), Z(ret.f(t, kk + i)) != px(i, t), Z(ret.shape[0]) != Tn, Z(ret.shape[1]) != 2 * kk, raised)
+    goal = [pre, i >= 0, i < kk, t >= 0, t < tt, bad]
+    return result('effective.2d[%s]' % case, check(goal, timeout), [f], x, goal,
+                  detail='row t: bit i (< k) = <LZ_i, e_t>, bit k+i = <LX_i, e_t>; shape (T, 2k) (or (2k,) for a single row)')
+
+
 def ob_logical_errors(timeout=30):
     m, c, calls, SYN, bs_prod, H, LX, LZ, e, selfo = _setup()
     seen = []
@@ -133,12 +179,13 @@ def ob_coset(timeout=30):
 
 def obligations(tier):
     return [Ob('C04.in_codespace', ob_in_codespace, {}, timeout=60), Ob('C04.effective.1d', ob_effective_1d, {}, timeout=60),
-            Ob('C04.logical_errors', ob_logical_errors, {}, timeout=60), Ob('C04.is_success', ob_is_success, {}, timeout=60), Ob('C04.coset', ob_coset, {}, timeout=30)]
+            Ob('C04.effective.2d[multi]', ob_effective_2d, dict(case='multi'), timeout=90), Ob('C04.effective.2d[single]', ob_effective_2d, dict(case='single'), timeout=90),
+            Ob('C04.effective.2d[one]', ob_effective_2d, dict(case='one'), timeout=90), Ob('C04.logical_errors', ob_logical_errors, {}, timeout=60), Ob('C04.is_success', ob_is_success, {}, timeout=60), Ob('C04.coset', ob_coset, {}, timeout=30)]
 
 
 # ------------------------------------------------------------------------------------------------ native layer
 from bounded import codes as BC    # noqa
-from bounded.util import all_code_classes, small_sizes    # noqa
+from bounded.util import deformation_variants, all_code_classes, small_sizes    # noqa
 
 
 def _basis(H):
@@ -198,6 +245,21 @@ def replay(r):
 
 
 def replay_file(data):
+    inp = (data or {}).get('input') or {}
+    if inp.get('code') and inp.get('size'):
+        cls = dict(all_code_classes())[inp['code']]
+        code = cls(*inp['size'])
+        variants = dict((v[0], v[1]) for v in deformation_variants(cls) if v[0])
+        for h in inp.get('history', []):
+            if h == 'use':
+                _ = (code.logicals_x, code.logicals_z, code.k, code.x_indices, code.stabilizer_matrix)
+            else:
+                code.deform(h, **variants.get(h, {})); _ = (code.logicals_x, code.stabilizer_matrix)
+        rnd = random.Random(0)
+        H = code.stabilizer_matrix.toarray()
+        errs = [H[j].tolist() for j in range(H.shape[0])] + [[rnd.randint(0, 1) for _ in range(2 * code.n)] for _ in range(200)]
+        why = native_success(code, errs)
+        return dict(confirmed=bool(why), input=inp, detail=why or 'success predicate agrees with the row-space oracle on this code object')
     return replay({})
 
 
@@ -234,6 +296,24 @@ def bounded(tier, seed):
                 samples.append(dict(code=name, size=size, n=code.n, errors=kind, ok=why is None))
             if why:
                 viol.append(dict(obligation='C04.bounded[%s]' % name, input=dict(code=name, size=list(size)), detail=why))
+            # the same predicate on a code object that was USED (logicals, row masks cached) and then deformed, once and twice
+            variants = [v for v in deformation_variants(cls) if v[0] is not None]
+            for vi, (dn, kw) in enumerate(variants):
+                used = cls(*size)
+                _ = (used.logicals_x, used.logicals_z, used.k, used.x_indices, used.stabilizer_matrix)
+                hist = [dn]
+                used.deform(dn, **kw)
+                if vi % 2 and len(variants) > 1:
+                    _ = (used.logicals_x, used.stabilizer_matrix)
+                    dn2, kw2 = variants[(vi + 1) % len(variants)]
+                    used.deform(dn2, **kw2); hist.append(dn2)
+                sub = errs if len(errs) <= 256 else [errs[j] for j in rnd.sample(range(len(errs)), 256)]
+                H2 = used.stabilizer_matrix.toarray()
+                sub = [H2[j].tolist() for j in range(min(4, H2.shape[0]))] + list(sub)
+                why = native_success(used, sub)
+                ev += len(sub)
+                if why:
+                    viol.append(dict(obligation='C04.bounded.deformed[%s]' % name, input=dict(code=name, size=list(size), history=['use'] + hist), detail=why))
     out, seen = [], set()
     for v in viol:
         if v['obligation'] not in seen:
